@@ -333,10 +333,40 @@ class _Roles:
         self.ckpt: Set[str] = {n for n, v in self.binds if isinstance(v, ast.Call) and call_name(v) == "torch.load"}
         self.info: Set[str] = _bound_to_key(fn.node, self.ckpt, "network_info")
         self.sel: Dict[str, Dict[str, Set[str]]] = {"modules": {}, "optimizers": {}}  # kind -> selection local -> prefix variables
+        # locals that hold the WHOLE <info>["modules"] / <info>["optimizers"] dictionary: every binding of the local in the function is that read
+        # (a hoisted common sub-expression; the local of an inlined helper)
+        stores: Dict[str, int] = {}
+        for x in ast.walk(fn.node):
+            if isinstance(x, ast.Name) and not isinstance(x.ctx, ast.Load):
+                stores[x.id] = stores.get(x.id, 0) + 1
+        self.whole: Dict[str, Set[str]] = {"modules": set(), "optimizers": set()}
+        for _ in range(4):
+            for n in {b[0] for b in self.binds}:
+                kinds = [self.kind(v) for m, v in self.binds if m == n]
+                if kinds[0] in self.whole and len(set(kinds)) == 1 and stores.get(n, 0) == len(kinds) and n not in fn.params:
+                    self.whole[kinds[0]].add(n)
         for n, v in self.binds:
             hit = self.selection(v)
             if hit is not None:
                 self.sel[hit[0]].setdefault(n, set()).add(hit[1])
+
+    def kind(self, e: ast.AST) -> Optional[str]:
+        """"modules" / "optimizers" when e is the whole dictionary of that name of the network info (read directly or held in a local)."""
+        if isinstance(e, ast.Name):
+            return next((k for k, names in self.whole.items() if e.id in names), None)
+        k = const_value(_key_read(e, self.info))
+        return k if k in self.whole else None
+
+    def entry_key(self, e: ast.AST, kind: str) -> Optional[ast.AST]:
+        """The key when e reads one entry of a network / optimizer: out of a prefix selection of that kind, or out of the whole dictionary."""
+        k = _key_read(e, set(self.sel[kind]))
+        if k is not None:
+            return k
+        if isinstance(e, ast.Subscript) and self.kind(e.value) == kind:
+            return e.slice
+        if isinstance(e, ast.Call) and isinstance(e.func, ast.Attribute) and e.func.attr == "get" and e.args and self.kind(e.func.value) == kind:
+            return e.args[0]
+        return None
 
     def selection(self, v: ast.AST) -> Optional[Tuple[str, str]]:
         if not (isinstance(v, ast.DictComp) and len(v.generators) == 1):
@@ -345,7 +375,7 @@ class _Roles:
         it = g.iter
         if not (isinstance(it, ast.Call) and isinstance(it.func, ast.Attribute) and it.func.attr == "items"):
             return None
-        kind = const_value(_key_read(it.func.value, self.info))
+        kind = self.kind(it.func.value)
         if kind not in self.sel:
             return None
         for cond in g.ifs:
@@ -354,25 +384,19 @@ class _Roles:
                     return kind, c.args[0].id
         return None
 
-    def nets(self) -> Set[str]:
-        return set(self.sel["modules"])
+    def reads(self, e: ast.AST, kind: str, suffix: str) -> bool:
+        """e contains a read of the entry f"{<x>}<suffix>" of a network ("modules") / an optimizer ("optimizers")."""
+        return any(_fsuffix(self.entry_key(x, kind)) == suffix for x in ast.walk(e))
 
-    def opts(self) -> Set[str]:
-        return set(self.sel["optimizers"])
-
-    def reads(self, e: ast.AST, sel: Set[str], suffix: str) -> bool:
-        """e contains a read of the key f"{<x>}<suffix>" out of one of the selections."""
-        return any(_fsuffix(_key_read(x, sel)) == suffix for x in ast.walk(e))
-
-    def field(self, sel: Set[str], suffix: str) -> Set[str]:
-        """Locals holding the `<name><suffix>` entry of a selection (directly, copied, or moved to a device)."""
+    def field(self, kind: str, suffix: str) -> Set[str]:
+        """Locals holding the `<name><suffix>` entry of a network / an optimizer (directly, copied, or moved to a device)."""
         out: Set[str] = set()
         grew = True
         while grew:
             grew = False
             for n, v in self.binds:
                 src = v.args[0] if isinstance(v, ast.Call) and call_name(v) == "chkpt_attribute_to_device" and v.args else v
-                if n not in out and (_fsuffix(_key_read(src, sel)) == suffix or (isinstance(src, ast.Name) and src.id in out)):
+                if n not in out and (_fsuffix(self.entry_key(src, kind)) == suffix or (isinstance(src, ast.Name) and src.id in out)):
                     out.add(n)
                     grew = True
         return out
@@ -632,16 +656,51 @@ def _read(fn: Fn) -> Tuple[Set[str], Set[str], Set[str]]:
     for n in ast.walk(fn.node):
         if isinstance(n, ast.Subscript) and not isinstance(n.ctx, ast.Load):
             continue
-        s = _fsuffix(_key_read(n, roles.nets()))
+        s = _fsuffix(roles.entry_key(n, "modules"))
         if s is not None:
             mod.add(s)
-        s = _fsuffix(_key_read(n, roles.opts()))
+        s = _fsuffix(roles.entry_key(n, "optimizers"))
         if s is not None:
             opt.add(s)
         k = const_value(_key_read(n, roles.ckpt | roles.info))
         if isinstance(k, str):
             top.add(k)
     return mod, opt, top
+
+
+def _receiver_forms(cfg: CFG, at: Node, e: ast.AST, member: bool = False, depth: int = 0) -> Set[str]:
+    """What expression e (evaluated at `at`) stands for, relative to the values it is derived from: "object" — such a value itself, "element" — a member
+    of such a value.  With member=True e is a container whose members are asked for.  Locals are followed through all definitions that reach, loop
+    variables to the iterable (argument k of zip for position k of the target), a list display `[x, ...]` to its items (a member of `[x]` is x)."""
+    if depth > 10:
+        return set()
+    if isinstance(e, ast.IfExp):
+        return _receiver_forms(cfg, at, e.body, member, depth + 1) | _receiver_forms(cfg, at, e.orelse, member, depth + 1)
+    if member and isinstance(e, (ast.List, ast.Tuple)) and not any(isinstance(x, ast.Starred) for x in e.elts):
+        out: Set[str] = set()
+        for x in e.elts:
+            out |= _receiver_forms(cfg, at, x, False, depth + 1)
+        return out
+    if isinstance(e, ast.Name):
+        out = set()
+        for d in cfg.defs_reaching(at, e.id):
+            v = cfg.value_of_def(d, e.id)
+            if v is not None:
+                out |= _receiver_forms(cfg, d, v, member, depth + 1)
+            elif d.kind == "for" and isinstance(d.ast, ast.For):
+                it, t = d.ast.iter, d.ast.target
+                src = None
+                if isinstance(t, ast.Name):
+                    src = it
+                elif isinstance(t, ast.Tuple) and isinstance(it, ast.Call) and call_name(it) == "zip" and len(it.args) == len(t.elts) and not it.keywords:
+                    src = next((a for a, x in zip(it.args, t.elts) if isinstance(x, ast.Name) and x.id == e.id), None)
+                if src is None or member:
+                    return set()
+                out |= _receiver_forms(cfg, d, src, True, depth + 1)
+            else:
+                return set()
+        return out
+    return {"element"} if member else {"object"}
 
 
 def _order(ck: Check, repo: Repo, fn: Fn, collected: bool) -> None:
@@ -651,9 +710,10 @@ def _order(ck: Check, repo: Repo, fn: Fn, collected: bool) -> None:
     roles = _Roles(fn)
     agent = roles.agent
     # the saved class(es) / constructor arguments of a network, and their elements when both are lists walked with zip
-    cls_names = roles.field(roles.nets(), "_cls")
-    init_names = roles.field(roles.nets(), "_init_dict")
-    pair_loops = [n for n in ast.walk(fn.node) if isinstance(n, ast.For) and isinstance(n.iter, ast.Call) and call_name(n.iter) == "zip"
+    cls_names = roles.field("modules", "_cls")
+    init_names = roles.field("modules", "_init_dict")
+    # (a `for` statement or the generator of a comprehension: both have .target / .iter)
+    pair_loops = [n for n in ast.walk(fn.node) if isinstance(n, (ast.For, ast.comprehension)) and isinstance(n.iter, ast.Call) and call_name(n.iter) == "zip"
                   and any(isinstance(a, ast.Name) and a.id in cls_names for a in n.iter.args)]
     elem_cls = {lp.target.elts[0].id for lp in pair_loops if isinstance(lp.target, ast.Tuple) and lp.target.elts and isinstance(lp.target.elts[0], ast.Name)}
 
@@ -675,8 +735,15 @@ def _order(ck: Check, repo: Repo, fn: Fn, collected: bool) -> None:
     loads = [cfg.node_of(c) for c in state_loads if not on_optimizer(c)]
     opts = [cfg.node_of(c) for c in calls_in(fn.node) if call_name(c) == "OptimizerWrapper"]
     oload = [cfg.node_of(c) for c in state_loads if on_optimizer(c)]
-    ck.ob("C07.2", fn, fn.node, len(build) >= 2 and len(loads) >= 2 and len(opts) == 1 and len(oload) == 1, f"{label}: has the rebuild / load-state / optimizer / optimizer-state phases",
-          detail=f"rebuild sites {len(build)}, module state loads {len(loads)}, optimizer builds {len(opts)}, optimizer state loads {len(oload)}", construct=f"{label}: phases")
+    # the saved weights reach a network held directly by the agent AND the members of a list of networks: the receivers of the module state loads,
+    # followed back through locals, loop variables and one-element lists, cover both forms (two load sites, or one site fed by both)
+    forms: Set[str] = set()
+    for c in state_loads:
+        at = cfg.node_of(c)
+        if not on_optimizer(c) and at is not None:
+            forms |= _receiver_forms(cfg, at, c.func.value)
+    ck.ob("C07.2", fn, fn.node, len(build) >= 2 and forms >= {"object", "element"} and len(opts) == 1 and len(oload) == 1, f"{label}: has the rebuild / load-state / optimizer / optimizer-state phases",
+          detail=f"rebuild sites {len(build)}, module state loads {len(loads)} into {sorted(forms)}, optimizer builds {len(opts)}, optimizer state loads {len(oload)}", construct=f"{label}: phases")
     if not (build and loads and opts and oload):
         return
 
@@ -691,7 +758,7 @@ def _order(ck: Check, repo: Repo, fn: Fn, collected: bool) -> None:
         if isinstance(c.func, ast.Name) and c.func.id in cls_names and c.keywords and c.keywords[0].arg is None:
             ck.ob("C07.2", fn, c, isinstance(c.keywords[0].value, ast.Name) and c.keywords[0].value.id in init_names, f"{label}: a network is rebuilt as saved_class(**saved_init_dict)")
     zips = pair_loops
-    ck.ob("C07.2", fn, zips[0] if zips else fn.node, bool(zips) and len(zips[0].iter.args) == 2 and dotted(zips[0].iter.args[0]) in cls_names and dotted(zips[0].iter.args[1]) in init_names,
+    ck.ob("C07.2", fn, (zips[0] if isinstance(zips[0], ast.For) else zips[0].iter) if zips else fn.node, bool(zips) and len(zips[0].iter.args) == 2 and dotted(zips[0].iter.args[0]) in cls_names and dotted(zips[0].iter.args[1]) in init_names,
           f"{label}: for network lists class k is paired with init_dict k")
     # optimizer arguments
     oc = [c for c in calls_in(fn.node) if call_name(c) == "OptimizerWrapper"][0]
@@ -706,7 +773,7 @@ def _order(ck: Check, repo: Repo, fn: Fn, collected: bool) -> None:
     for v in vals:
         alts += [v.body, v.orelse] if isinstance(v, ast.IfExp) else [v]
     # the names of the optimizer's networks as saved, and where the freshly loaded networks are taken from
-    named = roles.field(roles.opts(), "_networks")
+    named = roles.field("optimizers", "_networks")
     store: Set[str] = set()
     if collected:
         built = {nm for nm, v in roles.binds if isinstance(v, ast.Call) and rebuilds(v)}
@@ -726,12 +793,12 @@ def _order(ck: Check, repo: Repo, fn: Fn, collected: bool) -> None:
           f"{label}: the optimizer is built over the freshly loaded networks named in the checkpoint (single- and multi-agent form)", detail=src[:160])
     sd = [c for c in state_loads if on_optimizer(c)][0]
     arg = sd.args[0] if sd.args else None
-    saved = arg is not None and roles.reads(arg, roles.opts(), "_state_dict")
+    saved = arg is not None and roles.reads(arg, "optimizers", "_state_dict")
     if not saved and isinstance(arg, ast.Name):
         sn = cfg.node_of(sd)
         dv = [cfg.value_of_def(d, arg.id) for d in cfg.defs_reaching(sn, arg.id)] if sn is not None else []
-        held = roles.field(roles.opts(), "_state_dict")
-        saved = bool(dv) and all(v is not None and (roles.reads(v, roles.opts(), "_state_dict") or any(isinstance(x, ast.Name) and x.id in held for x in ast.walk(v))) for v in dv)
+        held = roles.field("optimizers", "_state_dict")
+        saved = bool(dv) and all(v is not None and (roles.reads(v, "optimizers", "_state_dict") or any(isinstance(x, ast.Name) and x.id in held for x in ast.walk(v))) for v in dv)
     ck.ob("C07.2", fn, sd, saved, f"{label}: the optimizer state loaded is the saved one")
     # attributes restored: setattr(<agent>, <loop variable>, <checkpoint>[<loop variable>] / .get(<loop variable>))
     attr_sets = []
@@ -834,7 +901,12 @@ def _prefix(ck: Check, repo: Repo, fns) -> None:
         cfg = CFG(fn.node)
         prefix_of = {**roles.sel["modules"], **roles.sel["optimizers"]}  # selection local -> variables it was filtered with
         comps = [n for n in ast.walk(fn.node) if isinstance(n, ast.DictComp) and any("startswith" in ast.unparse(i) for g in n.generators for i in g.ifs)]
-        ck.floor("C07.5", len(comps), 3, f"{fn.name}: prefix selections")
+        # an entry read out of the WHOLE modules / optimizers dictionary needs no selection: there the exact key is the only way in
+        direct = [(n, k) for n in ast.walk(fn.node) if not (isinstance(n, ast.Subscript) and not isinstance(n.ctx, ast.Load)) for kind in ("modules", "optimizers")
+                  for k in [roles.entry_key(n, kind)] if k is not None and _key_read(n, set(roles.sel[kind])) is None]
+        ck.floor("C07.5", len(comps) + len(direct), 3, f"{fn.name}: prefix selections")
+        for n, k in direct:
+            ck.ob("C07.5", fn, n, _fsuffix(k) is not None, f"{fn.name}: an entry taken from the whole dictionary is read with the exact key f\"{{name}}_…\"")
         for n in ast.walk(fn.node):
             if isinstance(n, ast.Subscript) and isinstance(n.value, ast.Name) and n.value.id in prefix_of and isinstance(n.ctx, ast.Load):
                 # the selection(s) that reach this read, and the variable each was filtered with
@@ -901,6 +973,23 @@ _W_FLAT = ("                    f\"{attr}_multiagent\": obj.multiagent,\n       
            "                f\"{attr}_state_dict\": state_dict,\n            }\n        )\n")
 _W_UPDATE = ("            network_info[\"modules\"].update(\n                {\n                    f\"{attr}_cls\": obj_cls,\n                    f\"{attr}_init_dict\": init_dict,\n"
              "                    f\"{attr}_state_dict\": state_dict,\n                }\n            )\n")
+# the two loaders in other, equivalent forms (C07.1 key agreement, C07.2 phases / pairing, C07.5)
+_L_HEAD = ("        network_names = network_info[\"network_names\"]\n        for name in network_names:\n            net_dict = {\n"
+           "                k: v for k, v in network_info[\"modules\"].items() if k.startswith(name)\n            }\n\n            module_cls = net_dict[f\"{name}_cls\"]\n")
+_L_HEAD_HOISTED = ("        network_names = network_info[\"network_names\"]\n        saved = network_info[\"modules\"]\n        for name in network_names:\n"
+                   "            net_dict = {k: v for k, v in saved.items() if k.startswith(name)}\n\n            module_cls = net_dict[f\"{name}%s\"]\n")
+_L_REBUILD = ("            if isinstance(module_cls, list):\n                loaded_modules = []\n                for mod, d in zip(module_cls, init_dict):\n"
+              "                    loaded_mod: EvolvableModule = mod(**d)\n                    loaded_modules.append(loaded_mod)\n\n"
+              "                setattr(self, name, loaded_modules)\n            else:\n                loaded_module: EvolvableModule = module_cls(**init_dict)\n"
+              "                setattr(self, name, loaded_module)\n")
+_L_REBUILD_EXPR = ("            rebuilt = (\n                [m(**kw) for m, kw in zip(module_cls, %s)]\n                if isinstance(module_cls, list)\n"
+                   "                else module_cls(**init_dict)\n            )\n            setattr(self, name, rebuilt)\n")
+_L_STATE = ("            state_dict = net_dict[f\"{name}_state_dict\"]\n            if isinstance(loaded_module, list):\n"
+            "                for loaded_mod, state in zip(loaded_module, state_dict):\n                    if state:\n                        loaded_mod.load_state_dict(state)\n"
+            "            elif state_dict:\n                loaded_module.load_state_dict(state_dict)\n\n        # Reconstruct optimizers in algorithm")
+_L_STATE_MERGED = ("            state_dict = net_dict[f\"{name}_state_dict\"]\n%s"
+                   "            for loaded_mod, state in zip(loaded_module, state_dict):\n                if state:\n                    loaded_mod.load_state_dict(state)\n\n"
+                   "        # Reconstruct optimizers in algorithm")
 VARIANTS = [
     ("loader-keeps-networks-that-fit", "agilerl/algorithms/core/base.py", "        network_names = network_info[\"network_names\"]\n        for name in network_names:\n            net_dict = {\n                k: v for k, v in network_info[\"modules\"].items() if k.startswith(name)\n            }\n\n            module_cls = net_dict[f\"{name}_cls\"]",
      "        network_names = network_info[\"network_names\"]\n        rebuild = not all(hasattr(self, name) for name in network_names)\n        for name in network_names if rebuild else []:\n            net_dict = {\n                k: v for k, v in network_info[\"modules\"].items() if k.startswith(name)\n            }\n\n            module_cls = net_dict[f\"{name}_cls\"]", "fire", "C07.12"),
@@ -943,4 +1032,13 @@ VARIANTS = [
      "                state_dict = remove_compile_prefix(agent.actor.state_dict())\n", "fire", "C07.1"),
     ("writer-state-dict-through-temporary-ok", _BF, "                state_dict = remove_compile_prefix(obj.state_dict())\n",
      "                module = obj\n                raw = module.state_dict()\n                state_dict = remove_compile_prefix(raw)\n", "silent", None),
+    ("load-cp-modules-dictionary-in-a-local-ok", _BF, _L_HEAD, _L_HEAD_HOISTED % "_cls", "silent", None),
+    ("load-cp-modules-dictionary-in-a-local-unwritten-key", _BF, _L_HEAD, _L_HEAD_HOISTED % "_class", "fire", "C07.1"),
+    ("load-cp-rebuild-as-conditional-expression-ok", _BF, _L_REBUILD, _L_REBUILD_EXPR % "init_dict", "silent", None),
+    ("load-cp-rebuild-expression-pairs-reversed", _BF, _L_REBUILD, _L_REBUILD_EXPR % "reversed(init_dict)", "fire", "C07.2"),
+    ("load-state-single-network-wrapped-in-a-list-ok", _BF, _L_STATE,
+     _L_STATE_MERGED % "            if not isinstance(loaded_module, list):\n                loaded_module, state_dict = [loaded_module], [state_dict]\n", "silent", None),
+    ("load-state-lists-only", _BF, _L_STATE, _L_STATE_MERGED % "            if not isinstance(loaded_module, list):\n                continue\n", "fire", "C07.2"),
+    ("load-state-read-from-the-whole-dictionary-ok", _BF, _L_STATE, _L_STATE.replace("net_dict[f\"{name}_state_dict\"]", "network_info[\"modules\"][f\"{name}_state_dict\"]"), "silent", None),
+    ("load-state-read-from-the-whole-dictionary-by-bare-name", _BF, _L_STATE, _L_STATE.replace("net_dict[f\"{name}_state_dict\"]", "network_info[\"modules\"][name]"), "fire", "C07"),
 ]
